@@ -30,7 +30,7 @@ from ..selftest import Variant
 
 LEVEL = "other"
 META = {
-    "technique": "static analysis: structured-flow dominance in Rule.fix, shape/effect analysis of the filter function (subset construction, exception paths), inter-procedural argument forwarding over the resolved call graph",
+    "technique": "static analysis: structured-flow dominance in Rule.fix, shape/effect analysis of the filter function (subset construction, exception paths), inter-procedural argument forwarding over the resolved call graph; no text write inside a loop over the region's tokens; no rule-attribute object added to a token list by reference",
     "level_text": "Decides the structural clauses that make --fix_only sound for every input and selection: the filter dominates every fix and the "
     "update, it can only remove violations, it keys on the rule's own id and on line membership, an unlisted rule ends with an empty selection, "
     "and the user's dictionary is forwarded unchanged to every rule's fix(). The per-line effect of an individual fix is a run-time relation (C07) and is not decided.",
